@@ -357,6 +357,16 @@ func propC05(run *Run, n int) {
 				jitter(r, b)
 			}
 		}
+		if ch.o.Has("K") && !ch.o.Has("P") && r.Chance(1, 6) {
+			// SetKeys: a member written twice on one side (or a different number of times on both): the same set
+			b = a.Clone()
+			if r.Chance(1, 2) {
+				b = cfg.Mutate(r, a, 1)
+			}
+			if dupIdentical(r, a)+dupIdentical(r, b) > 0 {
+				run.Count("setkeys:member-written-twice")
+			}
+		}
 		if r.Chance(1, 8) && !ch.o.Has("K") {
 			// numbers one ulp apart / exactly eps apart / just beyond eps (also with no Precision option: eps = 0)
 			b = a.Clone()
@@ -369,6 +379,41 @@ func propC05(run *Run, n int) {
 		a, b = withVoid(r, a, b)
 		addC05Case(run, ch.o, ch.label, a, b)
 	}
+}
+
+// dupIdentical repeats some object members of arrays IDENTICALLY (the same element twice: as a set it is the same set;
+// the SetKeys precondition speaks of different members sharing an identity, not of one member written twice)
+func dupIdentical(r *Rng, v *Val) int {
+	n := 0
+	switch v.K {
+	case KArr:
+		for _, e := range v.A {
+			n += dupIdentical(r, e)
+		}
+		objs := []int{}
+		for i, e := range v.A {
+			if e.K == KObj {
+				objs = append(objs, i)
+			}
+		}
+		if len(objs) > 0 && r.Chance(1, 2) {
+			j := objs[r.Intn(len(objs))]
+			at := r.Intn(len(v.A) + 1)
+			c := v.A[j].Clone()
+			v.A = append(v.A[:at], append([]*Val{c}, v.A[at:]...)...)
+			n++
+		}
+	case KObj:
+		ks := make([]string, 0, len(v.O))
+		for k := range v.O {
+			ks = append(ks, k)
+		}
+		sort.Strings(ks)
+		for _, k := range ks {
+			n += dupIdentical(r, v.O[k])
+		}
+	}
+	return n
 }
 
 // boundaryJitter moves some numbers of v to the boundary of "within eps": one or two ulps away, exactly eps away
@@ -1440,6 +1485,11 @@ func propC07(run *Run, n int) {
 		if (ch.o.Has("S") || ch.o.Has("B") || ch.o.Has("K")) && r.Chance(1, 3) {
 			// equal-as-sets parts: permute arrays of b at every depth (a real difference may remain elsewhere)
 			permuteDeep(r, b, false)
+		}
+		if ch.o.Has("K") && r.Chance(1, 6) {
+			if dupIdentical(r, a)+dupIdentical(r, b) > 0 {
+				run.Count("setkeys:member-written-twice")
+			}
 		}
 		addC07Case(run, ch.o, ch.label, a, b)
 		if r.Chance(1, 20) {
